@@ -82,6 +82,7 @@ type shaperMachine struct {
 	cfgs  []faceCfg
 	used  *shaping.HarfbuzzShaper
 	size  int // current cache size
+	store coordsStore
 	early []earlierOutput
 
 	// classification
@@ -136,7 +137,15 @@ func (m *shaperMachine) apply(op shaperOp) {
 	if op.Kind != "cache_size" && (op.Slot < 0 || op.Slot >= len(m.faces)) {
 		m.t.Fatalf("infrastructure: bad slot %d in replayed case", op.Slot)
 	}
+	if roundTripKinds[op.Kind] {
+		if _, err := m.store.apply(op.Kind, op.cfgOp, m.faces[op.Slot], &m.cfgs[op.Slot], len(m.pfs[op.Slot].Axes)); err != nil {
+			m.t.Fatalf("infrastructure: %v in replayed case", err)
+		}
+		m.flags["round_trip:"+op.Kind] = true
+		op.Kind = "" // nothing else to do but the re-check of the earlier outputs
+	}
 	switch op.Kind {
+	case "":
 	case "shape":
 		m.shape(op)
 	case "cache_size":
@@ -228,6 +237,16 @@ func (m *shaperMachine) shape(op shaperOp) {
 			op.Slot, pf.Ref.File, cfg.key(), d, who, glyphSummary(out), glyphSummary(ref))
 	}
 	m.early = append(m.early, earlierOutput{step: len(m.c.Ops) - 1, out: out, cpy: copyOutput(out)})
+	if op.MutateAfter {
+		// the caller reuses its slices: only a shaper that kept a reference can notice, later
+		for i := range in.Text {
+			in.Text[i] = 0x5A
+		}
+		for i := range in.FontFeatures {
+			in.FontFeatures[i] = shaping.FontFeature{Tag: mustTag("zzzz"), Value: 7}
+		}
+		m.flags["caller_slices_mutated_after_call"] = true
+	}
 }
 
 // burstShape shapes a tiny input Count times in one step. The calls themselves are not compared
@@ -427,6 +446,7 @@ func drawShapeOp(t *rapid.T, m *shaperMachine) shaperOp {
 	op.Script = drawScript(t, text[op.RunStart:op.RunEnd])
 	op.Lang = rapid.SampledFrom([]string{"", "en", "en", "ar", "tr", "hi", "sr"}).Draw(t, "lang")
 	op.Size = rapid.SampledFrom(shapeSizes).Draw(t, "size")
+	op.MutateAfter = rapid.IntRange(0, 3).Draw(t, "mutateAfter") == 0
 	for i, n := 0, rapid.SampledFrom([]int{0, 0, 0, 1, 1, 2}).Draw(t, "nFeatures"); i < n; i++ {
 		op.Features = append(op.Features, featDef{Tag: drawFeatureTag(t, pf), Value: rapid.SampledFrom(featureValues).Draw(t, "featureValue")})
 	}
@@ -511,6 +531,41 @@ func TestPropShaper(t *testing.T) {
 			if rapid.Bool().Draw(rt, "thenChange") {
 				m.apply(shaperOp{Kind: "set_variations", Slot: q.Slot, cfgOp: cfgOp{Vars: drawVars(rt, pf)}})
 			}
+			m.apply(q)
+		})
+		weighted(actions, "round_trip", 1, func(rt *rapid.T) {
+			// coordinates read from a face fed back to it or to a sibling face of the same font, with
+			// Shape calls in between
+			q := drawShapeOp(rt, m)
+			q.MutateAfter = rapid.Bool().Draw(rt, "mutateAfter")
+			k := q.Slot
+			pf := m.pfs[k]
+			var sib []int
+			for i, p := range m.pfs {
+				if p == pf && i != k {
+					sib = append(sib, i)
+				}
+			}
+			m.apply(q)
+			m.apply(shaperOp{Kind: "save_coords", Slot: k})
+			saved := len(m.store.saved) - 1
+			change := shaperOp{Kind: "set_variations", Slot: k, cfgOp: cfgOp{Vars: drawVars(rt, pf), MutateAfter: rapid.Bool().Draw(rt, "mutateVars")}}
+			if len(sib) > 0 && rapid.Bool().Draw(rt, "transfer") {
+				b := rapid.SampledFrom(sib).Draw(rt, "sibling")
+				m.apply(shaperOp{Kind: "restore_coords", Slot: b, cfgOp: cfgOp{Saved: saved}})
+				qb := q
+				qb.Slot = b
+				m.apply(qb)
+				m.apply(change)
+				m.apply(qb)
+				m.apply(q)
+				return
+			}
+			m.apply(change)
+			if rapid.Bool().Draw(rt, "shapeBetween") {
+				m.apply(q)
+			}
+			m.apply(shaperOp{Kind: "restore_coords", Slot: k, cfgOp: cfgOp{Saved: saved}})
 			m.apply(q)
 		})
 		weighted(actions, "cache_size", 1, func(rt *rapid.T) {
